@@ -74,6 +74,29 @@ def scenarios(rng, tier):
             for gname in getters:
                 if rng.random() < 0.4: cf.d[gname] = 1
             emit_scn('getters%d' % j, ['failalloc %d' % rng.randrange(1, na + 2)] if rng.random() < 0.5 else [], [cf.line(), gline(icon=None, fname=None)])
+    # getters that fail exactly once (the n-th call), a failing MTU getter with a small receive buffer and counters that fit
+    # the 1500-byte fallback, automata built under a failing allocation and then used.  The model has no per-call getter
+    # oracle: for these families only crash / no crash and the leak comparison are judged (see project).
+    own = OWN0; M = mac(1)
+    for mtu in (576, 800):
+        for n_ in (1, 2, 3, 4):
+            s.start('once_mtu%d_%d~x' % (mtu, n_)); s.lines.append('cfg 0 mtu=%d' % mtu); s.lines.append('cfg 1 mtu=%d' % mtu); s.lines.append(gline(icon=bytes(range(200)) * 8, fname=b'fn'))
+            s.frame(0, discover(M, gen=1))
+            for i in range(45): s.frame(0, probe(mac(100 + i), own, mac(100 + i), own))
+            for fr in (query(M, own, seq=2), emit(M, own, [(1, 0, mac(7), mac(8))] * 30, seq=3, count=rng.choice([45, 70, 104])), qlt(M, own, 14, 0, seq=4), discover(M, gen=2), query(M, own, seq=5)):
+                s.lines.append('cfg 0 mtufailat=%d' % n_); s.frame(0, fr, 'ff')
+            s.lines.append('cfg 0 mtufail=1'); s.frame(0, emit(M, own, [(1, 0, mac(7), mac(8))] * 30, seq=6, count=rng.choice([39, 60, 104])), 'ff'); s.frame(0, query(M, own, seq=7))
+            s.lines.append('cfg 0 mtufail=0 macfailat=1'); s.frame(0, discover(M, gen=3)); s.frame(0, query(M, own, seq=8))
+            s.frame(0, reset(M)); s.frame(1, reset(M))
+    for k in range(1, 7):
+        # the automata of an interface are built while the k-th allocation fails, then driven through the core's own API
+        # (ticks, session table, automata events); a constructor result that is NULL is passed on as the ports would
+        for hist in ('expire', 'inactive', 'charge'):
+            s.start('mkfail_%d_%s~x' % (k, hist)); s.op('failalloc', k); s.op('mk 0'); s.op('failalloc clear'); s.op('adv 5000')
+            s.op('st_add 0', hx(M), 1, 1); s.op('ss_map 0 0'); s.op('ss_sess 0 2'); s.op('ss_enum 0 3'); s.op('map_touch 0'); s.op('tick 0')
+            if hist == 'charge': s.op('map_charge 0'); s.op('adv 1500'); s.op('tick 0')
+            s.op('adv', 31000 if hist == 'inactive' else 61000); s.op('tick 0'); s.op('adv 100'); s.op('tick 0')
+            s.op('st_add 0', hx(M), 2, 1); s.op('ss_map 0 0'); s.op('tick 0'); s.op('st_clear 0'); s.op('tick 0')
     # constructors
     for kind in ('mapping', 'session', 'enumeration', 'table'):
         for k in range(0, 4):
@@ -84,6 +107,7 @@ def scenarios(rng, tier):
     return [(s.text(), {})]
 def project(blk, name, meta):
     if blk.fault: return ('fault',)
+    if name.endswith('~x'): return ()        # families whose faults the model does not express: crash / leak only
     if blk.op.startswith('frame'): return send_opcodes(blk) + (blk.kv.get('live'),)
     if blk.op.startswith('ctor'): return (blk.kv.get('ret'), blk.kv.get('extra'), blk.kv.get('st'), blk.kv.get('live'))
     return ()
@@ -94,6 +118,7 @@ def oracle(name, ib, mb, meta):
         k = next(i for i, b in enumerate(ib) if b.fault)
         fails.append((k, 'the responder crashed / corrupted memory (sanitizer report or bad release) under the injected platform fault'))
         return fails
+    if name.endswith('~x'): return fails
     if name.startswith('ctor'):
         for i, b in enumerate(ib):
             if b.op.startswith('ctor') and 'live' in b.kv:
